@@ -13,23 +13,26 @@ pub fn preprocess(expr: &str, file_id: FileID) -> Result<String, Box<Report>> {
 
     let mut it = expr.chars();
     while let Some(c0) = it.next() {
-        loc += 1;
+        // Locations are byte offsets into the file.
+        loc += c0.len_utf8();
         match (state, c0) {
             (0, '/') => {
-                loc += 1;
                 match it.next() {
                     Some('/') => {
+                        loc += 1;
                         state = 1;
                         pp.push(' ');
                         pp.push(' ');
                     }
                     Some('*') => {
+                        loc += 1;
                         block_start = loc;
                         state = 2;
                         pp.push(' ');
                         pp.push(' ');
                     }
                     Some(c1) => {
+                        loc += c1.len_utf8();
                         pp.push(c0);
                         pp.push(c1);
                     }
